@@ -107,6 +107,13 @@ fn date_domain(name: &str) -> Vec<i128> {
 // ---------------------------------------------------------------- from_ymd / from_ymdhms
 
 fn case_ymdhms(which: u8, y: i32, m: u32, d: u32, h: u32, mi: u32, s: u32, acc: &mut Acc) {
+    case_ymdhms_inner(which, y, m, d, h, mi, s, acc);
+    if crate::props::anchor::hash(&[which as u64, y as u64, m as u64, d as u64, h as u64, mi as u64, s as u64]) % 8 == 0 {
+        crate::props::anchor::values(acc, "constructors (purity probe)", &|| json!({"kind": "ymdhms", "which": which, "args": [y, m, d, h, mi, s]}));
+    }
+}
+
+fn case_ymdhms_inner(which: u8, y: i32, m: u32, d: u32, h: u32, mi: u32, s: u32, acc: &mut Acc) {
     acc.transitions += 1;
     acc.states += 1;
     let case = json!({"kind": "ymdhms", "which": which, "args": [y, m, d, h, mi, s]});
@@ -318,6 +325,13 @@ const SETTERS: [&str; 10] = ["year", "month", "day", "day_of_year", "hour", "min
 
 /// ty: 0 Date, 1 Time, 2 DateTime. `v` is the raw argument (i32 reinterpretation for set_year)
 fn case_setter(ty: u8, setter: usize, day: i64, nod: u64, v: i64, acc: &mut Acc) {
+    case_setter_inner(ty, setter, day, nod, v, acc);
+    if crate::props::anchor::hash(&[ty as u64, setter as u64, day as u64, nod, v as u64]) % 8 == 0 {
+        crate::props::anchor::values(acc, "setters (purity probe)", &|| json!({"kind": "setter", "ty": ty, "setter": setter, "day": day, "nod": nod.to_string(), "v": v}));
+    }
+}
+
+fn case_setter_inner(ty: u8, setter: usize, day: i64, nod: u64, v: i64, acc: &mut Acc) {
     let name = SETTERS[setter];
     if (ty == 0 && setter >= 4) || (ty == 1 && setter < 4) {
         return;
